@@ -29,7 +29,7 @@ PLAN = {
     "thorough": {"shards": 8, "shard_timeout": 3600, "case_timeout": 90, "seq": 600000, "runs": 60000, "par": 6000, "max_case_timeouts": 10},
 }
 THRESHOLDS = {
-    "quick": {"individuals_checked": 5000, "sequential_calls": 600, "multi_objective_calls": 200, "representations": 300, "shared_problem_cases": 100, "runs": 70, "parallel_calls": 40, "parallel_individuals": 150, "set:completion_orders": 5, "parallel_with_evaluated_members": 10, "parallel_batches_with_duplicates": 8, "runs_with_selection_after_variation": 30, "multi_returns:reused-list": 50, "multi_returns:tuple": 50, "parallel_batches_of_never_mapped_individuals": 10, "parallel_never_mapped:dsge": 3, "problem_churn_cases": 25, "rounds_on_a_reused_problem_address": 20},
+    "quick": {"individuals_checked": 5000, "sequential_calls": 600, "multi_objective_calls": 200, "representations": 300, "shared_problem_cases": 100, "runs": 70, "parallel_calls": 40, "parallel_individuals": 150, "set:completion_orders": 5, "parallel_with_evaluated_members": 10, "parallel_batches_with_duplicates": 8, "runs_with_selection_after_variation": 30, "multi_returns:reused-list": 50, "multi_returns:tuple": 50, "parallel_batches_of_never_mapped_individuals": 10, "parallel_never_mapped:dsge": 3, "problem_churn_cases": 25, "main_script_children": 6, "rounds_on_a_reused_problem_address": 20},
     "thorough": {"individuals_checked": 120000, "parallel_calls": 600, "set:completion_orders": 40},
 }
 
@@ -105,10 +105,12 @@ def gen_cases(tier, seed):
         yield {"kind": "run", "alg": rng.choice(["gp", "gp", "hc"]), "step": rng.choice(["default", "default", "mut-then-tournament", "mut-then-elitism", "mut-then-evaluate"]), "pop": rng.choice([2, 3, 5, 8]), "budget": rng.randint(5, 40), "multi": rng.random() < 0.3, "returns": rng.choice(["fresh-list", "reused-list", "tuple"]), "minimize": rng.random() < 0.5, "repr": rng.choice(["tree", "ge"]), "seed": rng.randrange(10**6)}
     for i in range(max(30, plan["seq"] // 20)):
         yield {"kind": "churn", "n": rng.choice([2, 3, 5, 8]), "rounds": rng.choice([3, 4, 6]), "repr": rng.choice(["tree", "ge"]), "seed": rng.randrange(10**6)}
+    for i in range(8 if tier == "quick" else 60):
+        yield {"kind": "main-script", "seed": rng.randrange(1000)}
     for i in range(plan["par"]):
-        yield {"kind": "par", "n": rng.choice([1, 2, 3, 4, 6, 8]), "pre": rng.choice([0.0, 0.0, 0.3, 0.6]), "dups": rng.random() < 0.4, "multi": rng.random() < 0.3, "minimize": rng.random() < 0.5, "repr": rng.choice(["tree", "ge"]), "seed": rng.randrange(10**6)}
-        if rng.random() < 0.5:
-            yield {"kind": "par", "n": rng.choice([2, 3, 4, 6]), "pre": 0.0, "dups": rng.random() < 0.3, "multi": rng.random() < 0.3, "minimize": rng.random() < 0.5, "repr": rng.choice(["dsge", "dsge", "sge", "stack", "ge", "tree"]), "fresh": True, "seed": rng.randrange(10**6)}
+        yield {"kind": "par", "n": rng.choice([1, 2, 3, 4, 6, 8]), "pre": rng.choice([0.0, 0.0, 0.3, 0.6]), "dups": rng.random() < 0.4, "multi": rng.random() < 0.3, "bool_min": rng.random() < 0.5, "minimize": rng.random() < 0.5, "repr": rng.choice(["tree", "ge"]), "seed": rng.randrange(10**6)}
+        if i % 2 == 0:  # (deterministic shares: coverage must not depend on the seed)
+            yield {"kind": "par", "n": rng.choice([2, 3, 4, 6]), "pre": 0.0, "dups": rng.random() < 0.3, "multi": rng.random() < 0.3, "minimize": rng.random() < 0.5, "repr": ["dsge", "sge", "dsge", "stack", "dsge", "ge", "tree"][(i // 2) % 7], "fresh": True, "seed": rng.randrange(10**6)}
 
 
 def setup(rec):
@@ -217,9 +219,34 @@ def run_churn(case, rec):
     rec.distinct_add(["churn", case["n"], case["rounds"], len(set(seen_ids))])
 
 
+def run_main_script(case, rec):
+    """An experiment script whose grammar classes and fitness function live in __main__ (child_c13_main.py, run as a
+    script): parallel and sequential evaluation of the same individuals must record the same values, also for a second
+    batch after a module-level setting changed."""
+    import json
+    import subprocess
+
+    rec.count("main_script_children")
+    rec.count("evaluations")
+    p = subprocess.run([core.PY, str(core.VERIF / "gev" / "child_c13_main.py"), str(case["seed"])], cwd=str(core.VERIF), env=core.child_env({}), capture_output=True, text=True, timeout=120)
+    out = next((json.loads(ln[8:]) for ln in p.stdout.splitlines() if ln.startswith("GEVJSON ")), None)
+    wit = {"script": "gev/child_c13_main.py", "seed": case["seed"]}
+    if out is None:
+        rec.violation("parallel-evaluate:raises:in-a-main-script", dict(wit, stderr=p.stderr[-300:]))
+        return
+    for which in ("first", "second"):
+        par, seq = out[which]
+        rec.count("individuals_checked", len(par))
+        if par != seq:
+            rec.violation(f"parallel-differs-from-sequential:classes-and-settings-of-the-main-script:{which}-batch", dict(wit, parallel=par, sequential=seq))
+    rec.distinct_add(["main-script", case["seed"], out["first"][1], out["second"][1]])
+
+
 def run_case(case, rec):
     if case.get("kind") == "churn":
         return run_churn(case, rec)
+    if case.get("kind") == "main-script":
+        return run_main_script(case, rec)
     if LOG_PATH["path"] and os.path.exists(LOG_PATH["path"]):
         os.unlink(LOG_PATH["path"])
     os.environ["GEV_C13_DELAY"] = "0"
@@ -422,6 +449,17 @@ def run_par(case, rec):
     finally:
         os.environ["GEV_C13_DELAY"] = "0"
     plog = read_log()[b0:]
+    if case["multi"] and case.get("bool_min") and new_positions:
+        # a problem declared with minimize=<bool> learns its number of objectives at its first evaluation - which has just
+        # happened, in a worker: the problem object of THIS process must know it too (lexicase selection asks it)
+        rec.count("lazily_sized_problems_after_parallel_evaluation")
+        try:
+            if prob.number_of_objectives() != 3 or not isinstance(prob.minimize, list):
+                rec.violation("problem-not-initialised-after-parallel-evaluation", dict(wit, objectives=prob.number_of_objectives(), minimize=repr(prob.minimize)))
+        except core.CaseTimeout:
+            raise
+        except BaseException as e:  # noqa
+            rec.violation("problem-not-initialised-after-parallel-evaluation", dict(wit, error=core.short(e)))
     rec.count("parallel_calls")
     rec.count("parallel_individuals", len(inds))
     if len(plog) != pe.number_of_evaluations():
